@@ -116,6 +116,12 @@ def main(argv):
             except Exception as e:
                 out[pid] = ["%s|INTERNAL-ERROR|%s" % (pid, type(e).__name__)]; continue
             out[pid] = sorted(set(o.key for o in ctx.obs if o.status != "discharged" and o.key not in known))
+            floors = dict(getattr(mod, "FLOORS", {}))
+            fj = os.path.join(HERE, "floors.json")
+            if os.path.exists(fj): floors.update(json.load(open(fj)).get(pid, {}))
+            per_rule = {}
+            for k in set((o.rule, o.key) for o in ctx.obs): per_rule[k[0]] = per_rule.get(k[0], 0) + 1
+            if any(per_rule.get(r, 0) < n for r, n in floors.items()): out[pid].append("%s|FLOOR" % pid)
         print(json.dumps(out)); return 0
     if len(argv) >= 2 and argv[1] == "gen-reference":
         # freeze the function ids of the current tree (all feature configurations) as the reference for inline.normalise
